@@ -76,6 +76,7 @@ impl<F: Float> Inner for CsMat<F> {
         self.cols()
     }
     fn column(&self, i: usize) -> Vec<F> {
+        assert!(i < self.cols(), "column index out of bounds");
         (0..self.size())
             .map(|j| *self.get(j, i).unwrap_or(&F::neg_zero()))
             .collect::<Vec<_>>()
@@ -121,6 +122,7 @@ impl<F: Float> Inner for CsMatView<'_, F> {
         self.cols()
     }
     fn column(&self, i: usize) -> Vec<F> {
+        assert!(i < self.cols(), "column index out of bounds");
         (0..self.size())
             .map(|j| *self.get(j, i).unwrap_or(&F::neg_zero()))
             .collect::<Vec<_>>()
